@@ -79,18 +79,18 @@ def unescapeAt (s : Bytes) : Option (Bytes × Nat) :=
           | some (r, j) => some (encodeRune r, j)
           | none => none
 
-/-- `html.UnescapeString` -/
-def htmlUnescape (s : Bytes) : Bytes := go s.length s
-where
-  go : Nat → Bytes → Bytes
-  | 0, s => s
-  | fuel + 1, s =>
-    match s with
-    | [] => []
-    | 38 :: t =>
+/-- the loop of `html.UnescapeString`; `skip` counts the bytes of an entity still to pass over -/
+def unescapeGo : Nat → Bytes → Bytes
+  | _, [] => []
+  | skip + 1, _ :: t => unescapeGo skip t
+  | 0, c :: t =>
+    if c == 38 then
       match unescapeAt t with
-      | some (rep, n) => rep ++ go fuel (t.drop n)
-      | none => 38 :: go fuel t
-    | c :: t => c :: go fuel t
+      | some (rep, n) => rep ++ unescapeGo n t
+      | none => 38 :: unescapeGo 0 t
+    else c :: unescapeGo 0 t
+
+/-- `html.UnescapeString` -/
+def htmlUnescape (s : Bytes) : Bytes := unescapeGo 0 s
 
 end Tw
